@@ -18,6 +18,16 @@ def main(argv):
         from mc.engine.harness import unjson
         with open(argv[1]) as f:
             art = json.load(f)
+        if art.get('history_dependent') and not os.environ.get('VERIF_REPLAY_SINGLE'):
+            # the case alone does not violate; the violation needs the exploration history: re-run the check
+            import subprocess
+            r = subprocess.run([sys.executable, '-m', 'mc.run', art['property'], art.get('tier', 'quick')],
+                               env=dict(os.environ, VERIF_FAILFAST='1'), capture_output=True, text=True)
+            again = 'FAILFAST property=' in r.stdout
+            print('REPLAY-RESULT ' + json.dumps({'violated': again, 'observed': [l for l in r.stdout.splitlines() if l.startswith('FAILFAST')][:1]}))
+            if again:
+                print('VIOLATION property=%s replay=%s' % (art['property'], argv[1]))
+            return 1 if again else 0
         if isinstance(art.get('case'), dict) and '$crash' in art['case']:
             # the implementation raised where the check expected no exception: show the recorded traceback and
             # re-run the check up to its first violating part
